@@ -590,20 +590,27 @@ Proof.
   rewrite orb_true_iff, seqb_iff, IH. split; intros [H|H]; auto.
 Qed.
 
+(* every attribute value — its text and, when it has one, its NameID child's value — is a value of the session *)
+Definition value_from (s : session) (v : attrvalue) : Prop :=
+  In (av_value v) (session_values s) /\
+  (forall n, av_nameid v = Some n -> In (ni_value n) (session_values s)).
 Definition values_from (s : session) (l : list attribute) : Prop :=
-  forall a v, In a l -> In v (at_values a) -> In (av_value v) (session_values s).
+  forall a v, In a l -> In v (at_values a) -> value_from s v.
 
 Lemma values_from_app s l1 l2 : values_from s l1 -> values_from s l2 -> values_from s (l1 ++ l2).
 Proof. intros H1 H2 a v Ha. apply in_app_or in Ha. destruct Ha; eauto. Qed.
 
 Lemma values_from_opt s c a :
-  (forall v, In v (at_values a) -> In (av_value v) (session_values s)) -> values_from s (opt_attr c a).
+  (forall v, In v (at_values a) -> value_from s v) -> values_from s (opt_attr c a).
 Proof. intros H a' v Ha. destruct c; simpl in Ha; [destruct Ha as [<-|[]]; auto | contradiction]. Qed.
 
 Lemma in_session_values_head s x :
   In x [ss_email s; ss_common_name s; ss_given_name s; ss_surname s; ss_user_name s; ss_eppn s;
         ss_scoped_aff s; ss_subject_id s] -> In x (session_values s).
 Proof. intro H. unfold session_values. apply in_or_app. left. exact H. Qed.
+
+Lemma value_from_xs s x : In x (session_values s) -> value_from s (xs_val x).
+Proof. intro H. split; [exact H | intros n Hn; discriminate]. Qed.
 
 Lemma requested_value_in s n v : requested_value s n = Some v -> In v (session_values s).
 Proof.
@@ -618,19 +625,23 @@ Proof.
   apply values_from_app; [|exact IH].
   destruct (seqb (ra_format ra) fmt_basic || seqb (ra_format ra) fmt_unspecified); [|intros a v []].
   destruct (requested_value s (strip_non_alnum (ra_name ra))) as [x|] eqn:E; [|intros a v []].
-  intros a v [<-|[]] Hv. simpl in Hv. destruct Hv as [<-|[]]. simpl. eapply requested_value_in; eauto.
+  intros a v [<-|[]] Hv. simpl in Hv. destruct Hv as [<-|[]]. apply value_from_xs. eapply requested_value_in; eauto.
 Qed.
 
 Lemma session_attributes_from svc s : values_from s (session_attributes svc s).
 Proof.
   unfold session_attributes.
   repeat apply values_from_app; try apply requested_attrs_from;
-    try (apply values_from_opt; simpl; intros v [<-|[]]; simpl;
+    try (apply values_from_opt; cbn [uri_attr at_values]; intros v [<-|[]]; apply value_from_xs;
          try (destruct (nonempty (ss_eppn s))); apply in_session_values_head; simpl; tauto).
-  - intros a v Ha Hv. unfold session_values. apply in_or_app. right. apply in_or_app. right.
-    apply in_flat_map. exists a. split; [exact Ha|]. apply in_map. exact Hv.
+  - intros a v Ha Hv. unfold value_from, session_values. split.
+    + apply in_or_app. right. apply in_or_app. right.
+      apply in_flat_map. exists a. split; [exact Ha|]. apply in_flat_map. exists v. split; [exact Hv | left; reflexivity].
+    + intros n Hn. apply in_or_app. right. apply in_or_app. right.
+      apply in_flat_map. exists a. split; [exact Ha|]. apply in_flat_map. exists v. split; [exact Hv|].
+      rewrite Hn. right. left. reflexivity.
   - apply values_from_opt. intros v Hv. cbn [at_values uri_attr] in Hv. apply in_map_iff in Hv. destruct Hv as (g & <- & Hg).
-    cbn [xs_val av_value]. unfold session_values. apply in_or_app. right. apply in_or_app. left. exact Hg.
+    apply value_from_xs. unfold session_values. apply in_or_app. right. apply in_or_app. left. exact Hg.
 Qed.
 
 Lemma session_attributes_custom svc s :
@@ -699,12 +710,12 @@ Qed.
 (* ---------- the C06 monitor holds of the model's own output ---------- *)
 Lemma list_eqb_refl {A} (eq : A -> A -> bool) (H : forall x, eq x x = true) l : list_eqb eq l l = true.
 Proof. induction l as [|x r IH]; simpl; [reflexivity|]. rewrite H, IH. reflexivity. Qed.
-Lemma attrvalue_eqb_refl a : attrvalue_eqb a a = true.
-Proof. unfold attrvalue_eqb. rewrite !seqb_refl. reflexivity. Qed.
-Lemma attribute_eqb_refl a : attribute_eqb a a = true.
-Proof. unfold attribute_eqb. rewrite !seqb_refl, (list_eqb_refl _ attrvalue_eqb_refl). reflexivity. Qed.
 Lemma nameid_eqb_refl a : nameid_eqb a a = true.
 Proof. unfold nameid_eqb. rewrite !seqb_refl. reflexivity. Qed.
+Lemma attrvalue_eqb_refl a : attrvalue_eqb a a = true.
+Proof. unfold attrvalue_eqb. rewrite !seqb_refl. destruct (av_nameid a); [apply nameid_eqb_refl | reflexivity]. Qed.
+Lemma attribute_eqb_refl a : attribute_eqb a a = true.
+Proof. unfold attribute_eqb. rewrite !seqb_refl, (list_eqb_refl _ attrvalue_eqb_refl). reflexivity. Qed.
 Lemma assertion_eqb_refl a : assertion_eqb a a = true.
 Proof.
   unfold assertion_eqb.
@@ -779,7 +790,8 @@ Proof.
   - unfold attrs_b. rewrite A1, A2, A3, !seqb_refl, Z.eqb_refl. cbn [andb].
     apply andb_true_iff; split; [apply andb_true_iff; split|].
     + apply forallb_forall. intros a Ha. apply forallb_forall. intros v Hv.
-      apply mem_str_In. eapply A4; eauto.
+      destruct (A4 a v Ha Hv) as [V1 V2]. apply andb_true_iff. split; [apply mem_str_In; exact V1|].
+      destruct (av_nameid v) as [n|]; [apply mem_str_In; apply V2; reflexivity | reflexivity].
     + rewrite A5. apply subseq_b_app. exact attribute_eqb_refl.
     + unfold group_attr_ok. destruct (ss_groups sess) as [|g0 gr] eqn:Eg; [reflexivity|].
       apply existsb_exists. eexists. split; [apply A6; discriminate|].
